@@ -231,6 +231,8 @@ def worker_main(argv):
   mod = load_prop(prop)
   if hasattr(mod, 'setup_worker'):
     mod.setup_worker(w, tier)
+  gc.collect()
+  gc.freeze()  # import-time objects leave the collector's sight: explicit gc events stay cheap and deterministic
   gc.disable()
   agg = dict(
     runs=0, steps=0, ops=0, faults={}, probes={}, nontrivial=0, digests=[], sched=[],
@@ -336,6 +338,8 @@ def replay_main(path):
     mod.setup_worker(0, 'replay')
   import gc
 
+  gc.collect()
+  gc.freeze()
   gc.disable()
   res = mod.execute(plan)
   out = dict(violation=res.violation, digest=res.digest)
